@@ -163,8 +163,10 @@ func topIndex(body *ast.BlockStmt, pos token.Pos) int {
 func (s *srcFile) enclosingConds(body ast.Node, pos token.Pos) []string {
 	var out []string
 	ast.Inspect(body, func(x ast.Node) bool {
-		if is, ok := x.(*ast.IfStmt); ok && is.Pos() <= pos && pos < is.End() && !(is.Cond.Pos() <= pos && pos < is.Cond.End()) {
-			if is.Init == nil || !(is.Init.Pos() <= pos && pos < is.Init.End()) {
+		if is, ok := x.(*ast.IfStmt); ok {
+			inBody := is.Body.Pos() <= pos && pos < is.Body.End()
+			inElse := is.Else != nil && is.Else.Pos() <= pos && pos < is.Else.End()
+			if inBody || inElse {
 				out = append(out, s.text(is.Cond))
 			}
 		}
